@@ -239,6 +239,8 @@ impl KnownFindings {
 }
 
 // ---------------------------------------------------------------------------------------------
+pub static PROCESS_START: std::sync::OnceLock<std::time::Instant> = std::sync::OnceLock::new();
+
 // Report: collects failing cases, decides KNOWN-FINDING vs VIOLATION, writes evidence.
 
 #[derive(Clone, Debug)]
@@ -425,6 +427,7 @@ impl Report {
             "coverage": Value::Object(self.coverage.clone().into_iter().collect()),
             "assumptions": self.assumptions,
             "wall_s": wall,
+            "process_wall_s": PROCESS_START.get().map(|t| t.elapsed().as_secs_f64()).unwrap_or(wall),
             "violations": n_viol as i64,
         });
         let ev_dir = format!("{VERIF_DIR}/evidence");
@@ -434,6 +437,10 @@ impl Report {
             eprintln!("machinery failure: cannot write evidence {ev_path}: {e}");
             return 2;
         }
+        // a per-tier copy, so that the record of the last thorough run survives quick runs
+        let tier_dir = format!("{VERIF_DIR}/evidence-by-tier");
+        let _ = fs::create_dir_all(&tier_dir);
+        let _ = fs::write(format!("{tier_dir}/{}.{}.json", self.property, self.tier.name()), serde_json::to_string_pretty(&ev).unwrap());
         let _ = writeln!(
             out,
             "{} tier={} wall={:.1}s violations={} known_finding_cases={} evidence={}",
